@@ -194,4 +194,65 @@ pub mod thm {
         assert(p1.last() == ev[k]);
         assert(depth(p1) >= 0);
     }
+
+    // C01/C10: n-ary ordered choice. The generated code for `e1 | .. | en` is
+    // ChoiceHelper::new(st).choice(f1)...choice(fn).end(); by the contracts of `choice` the helpers form a chain
+    // h0 .. hn in which step i is choice_step on the outcome of alternative i while no alternative has matched,
+    // and the identity afterwards. Then: the value is that of the FIRST alternative that matches (k), later
+    // alternatives change nothing, the cursor never moves, and the recorded error is the furthest of the
+    // errors of the alternatives before k (all of them if none matches) and what was recorded before.
+    pub open spec fn fold_far<'a, T>(far: Option<ParseError>, outs: Seq<ParseResult<'a, T>>, n: int) -> Option<ParseError>
+        decreases n
+    {
+        if n <= 0 { far } else {
+            match outs[n - 1] {
+                Err(e) => Some(furthest(fold_far(far, outs, n - 1), e)),
+                Ok(_) => fold_far(far, outs, n - 1),
+            }
+        }
+    }
+    pub open spec fn choice_chain<'a, T>(hs: Seq<ChoiceHelper<'a, T>>, outs: Seq<ParseResult<'a, T>>) -> bool {
+        &&& hs.len() == outs.len() + 1
+        &&& forall|i: int| 0 <= i < outs.len() ==>
+                (#[trigger] hs[i]).res().is_some() ==> hs[i + 1] == hs[i]
+        &&& forall|i: int| 0 <= i < outs.len() ==>
+                (#[trigger] hs[i]).res().is_none() ==> choice_step(hs[i], outs[i], hs[i + 1])
+    }
+    pub proof fn thm_C01_C10_ordered_choice<'a, T>(hs: Seq<ChoiceHelper<'a, T>>, outs: Seq<ParseResult<'a, T>>, k: int, j: int)
+        requires
+            choice_chain(hs, outs), hs[0].res().is_none(),
+            0 <= k <= outs.len(),
+            forall|i: int| 0 <= i < k ==> (#[trigger] outs[i]) is Err,
+            k < outs.len() ==> outs[k] is Ok,
+            0 <= j <= outs.len(),
+        ensures
+            hs[j].st().idx() == hs[0].st().idx(), hs[j].st().rest() == hs[0].st().rest(),
+            j <= k ==> (hs[j].res().is_none() && hs[j].st().far() == fold_far(hs[0].st().far(), outs, j)),
+            j > k ==> (hs[j].res() == Some(outs[k]->Ok_0) && hs[j].st().far() == fold_far(hs[0].st().far(), outs, k)),
+        decreases j,
+    {
+        if j > 0 {
+            thm_C01_C10_ordered_choice(hs, outs, k, j - 1);
+            let h = hs[j - 1];
+            if j - 1 < k {
+                assert(outs[j - 1] is Err);
+                assert(choice_step(h, outs[j - 1], hs[j]));
+            } else if j - 1 == k {
+                assert(choice_step(h, outs[k], hs[j]));
+            } else {
+                assert(h.res().is_some());
+                assert(hs[j] == h);
+            }
+        }
+    }
+
+    // C10: `furthest` is the maximum of the positions, a tie going to the newer error
+    pub proof fn thm_C10_furthest_is_max(far: Option<ParseError>, e: ParseError)
+        ensures
+            furthest(far, e).position >= e.position,
+            far matches Some(f) ==> furthest(far, e).position >= f.position,
+            furthest(far, e) == e || Some(furthest(far, e)) == far,
+            (far matches Some(f) && f.position == e.position) ==> furthest(far, e) == e,
+    {
+    }
 }
